@@ -320,6 +320,12 @@ func (g *Graph) addTask(t *Task) error {
 	// 	g.errs = append(g.errs, err)
 	// 	return err
 	// }
+	if v, ok := g.Vertices[t.ID]; ok {
+		// Re-adding a known task keeps its vertex (edges, retries), otherwise
+		// dependents would keep pointing at an orphaned vertex that never runs.
+		v.Task = t
+		return nil
+	}
 	if _, ok := g.Vertices[t.ID]; !ok {
 		g.dotDiagram += fmt.Sprintf("\t\"%s\";\n", t.ID)
 	}
